@@ -8,6 +8,7 @@ only when that hash matches, otherwise the rustc_private driver is re-run over
 import fcntl
 import hashlib
 import json
+import re
 import os
 import subprocess
 import sys
@@ -149,12 +150,20 @@ def extract(cfg="default", quiet=True):
         lockf.close()
 
 
+_STD_NORM = re.compile(r"(?<![\w:])(core|alloc)::")
+
+
 class Facts:
     def __init__(self, path, cfg):
         self.path = path
         self.cfg = cfg
         with open(path) as fh:
-            d = json.load(fh)
+            txt = fh.read()
+        # one spelling for the standard library whatever the feature set: rustc prints `alloc::vec::Vec` / `core::option::Option`
+        # in no_std builds and `std::vec::Vec` / `std::option::Option` (but still `core::slice::<impl [T]>`) with std linked
+        txt = _STD_NORM.sub("std::", txt)
+        d = json.loads(txt)
+        del txt
         self.raw = d
         if d.get("stolen", 0) != 0:
             raise FactError("mir_built was stolen for %d bodies" % d["stolen"])
